@@ -525,8 +525,16 @@ class Compiler:
         function = function(self.context, operands)
         # Constants folding.
         if all(isinstance(operand, EvalConstant) for operand in operands) and function.pure:
-            return EvalConstant(function(None), function.dtype)
+            return self._fold(function, node)
         return function
+
+    def _fold(self, function, node):
+        """Evaluate an expression on constants at compile time."""
+        try:
+            value = function(None)
+        except Exception as ex:
+            raise CompilationError(f'cannot evaluate constant expression: {ex}', node) from ex
+        return EvalConstant(value, function.dtype)
 
     @_compile.register
     def _subscript(self, node: ast.Subscript):
@@ -556,7 +564,7 @@ class Compiler:
         function = function(operand)
         # Constants folding.
         if isinstance(operand, EvalConstant):
-            return EvalConstant(function(None), function.dtype)
+            return self._fold(function, node)
         return function
 
     @_compile.register
@@ -600,7 +608,7 @@ class Compiler:
                     function = op(left, right)
                     # Constants folding.
                     if isinstance(left, EvalConstant) and isinstance(right, EvalConstant):
-                        return EvalConstant(function(None), function.dtype)
+                        return self._fold(function, node)
                     return function
 
             # Implement type inference when one of the operands is not strongly typed.
